@@ -181,6 +181,7 @@ def run(ctx):
     if ratio is None:
         raise AnalysisError('Container._transfer: cannot find the per-substance factor `amount * ratio`')
     ratio_val, loop = ratio
+    ratio_val = strip_clamp(ratio_val)
     options = ratio_val.options if isinstance(ratio_val, Phi) else [ratio_val]
     options = [o for o in options if isinstance(o, Ref)]
     ctx.ob('C03.R2', tr, tr.node.lineno, 'transfer has a branch per quantity unit (L, g, mol, U)', len(options) >= 4,
@@ -189,7 +190,7 @@ def run(ctx):
     loop_state = fft.state_before(loop)
 
     def ratio_le_one(c):
-        return c.op == 'le' and c.left is ratio_val and const_value(c.right) == 1
+        return c.op == 'le' and (c.left is ratio_val or unround(c.left)[0] is ratio_val) and const_value(c.right) == 1
     global_gate = gate_with(loop_state, ratio_le_one, 'ValueError')
     for o in options:
         v = strip_refs(o)
@@ -218,7 +219,7 @@ def run(ctx):
         return gate_with(state, g, 'ValueError')
 
     # _transfer: the parsed user quantity must be non-negative before the per-substance loop
-    g = sign_gate_on(loop_state, lambda v: user_derived(v) or v is ratio_val)
+    g = sign_gate_on(loop_state, lambda v: user_derived(v) or v is ratio_val or unround(v)[0] is ratio_val)
     ctx.ob('C03.R3', tr, loop.lineno, 'sign gate on the transferred quantity', bool(g),
            fact=str(g[0]) if g else 'no `quantity < 0 -> ValueError` gate dominates the per-substance loop',
            why='a negative quantity moves material backwards (destination to source)',
@@ -256,7 +257,9 @@ def run(ctx):
                key='no positive-target gate')
 
         def nonneg_required(cc, val=val):
-            return cc.op in ('le', 'lt') and zero(cc.left) and (cc.right is val or same_value(cc.right, val))
+            r = unround(cc.right)[0]
+            return cc.op in ('le', 'lt') and zero(cc.left) and (cc.right is val or r is val or same_value(r, val) or
+                                                                same_value(r, unround(val)[0]))
 
         def nonneg_alt(cc, val=val):
             # equivalent: current <= target, where required = target - current
@@ -462,6 +465,14 @@ def strip_sub(raw_arg, state, ff):
     while isinstance(r, ast.Subscript):
         r = r.value
     return r
+
+
+def strip_clamp(v):
+    """`ratio = min(ratio, 1)` clamps representation error: look through it to the computed ratio."""
+    while isinstance(v, Ref) and isinstance(v.value, ast.Call) and getattr(v.value.func, 'id', '') == 'min' and \
+            len(v.value.args) == 2 and any(const_value(a) == 1 for a in v.value.args):
+        v = [a for a in v.value.args if const_value(a) != 1][0]
+    return v
 
 
 def find_ratio(ff):
